@@ -36,6 +36,10 @@ type context struct {
 	// the rel attribute has not already been parsed in the current element, or if the
 	// value of the rel attribute cannot be determined at parse time.
 	linkRel string
+	// tagNameSplit is set once template text has extended a tag name that ended an earlier
+	// text node, as in `<s{{if .C}}{{end}}cript>`. The element names assumed from then on are
+	// not the ones an HTML parser sees, so no later action can be sanitized.
+	tagNameSplit bool
 }
 
 // eq returns whether Context c is equal to Context d.
@@ -138,6 +142,9 @@ type element struct {
 	// names can also contain empty strings, which represent joined contexts with no element name.
 	// names will be empty if no context joining occurred.
 	names []string
+	// nameUnfinished indicates that name ran up to the end of a text node. Template text
+	// that directly follows the next action or branch would extend the name.
+	nameUnfinished bool
 }
 
 // eq reports whether a and b have the same name. All other fields are ignored.
